@@ -269,3 +269,53 @@ def first_diff(a, b):
 def events(line):
     _, _, body = line.partition(" ;; ")
     return body.split(" ; ")
+
+
+# --------------------------------------------------------------------------------------------- dispatch probes (golden)
+MODE_PREFIX = [
+    ("Initial", "", 1), ("BeforeHtml", "<!DOCTYPE html>", 1), ("BeforeHead", "<html>", 1), ("InHead", "<head>", 1),
+    ("InHeadNoscript", "<head><noscript>", 0), ("AfterHead", "<head></head>", 1), ("InBody", "<body><p>", 1),
+    ("InBodyDeep", "<body><div><b><ul><li>", 1), ("Text", "<title>", 1), ("InTable", "<table>", 1),
+    ("InCaption", "<table><caption>", 1), ("InColumnGroup", "<table><colgroup>", 1), ("InTableBody", "<table><tbody>", 1),
+    ("InRow", "<table><tr>", 1), ("InCell", "<table><tr><td>", 1), ("InTemplate", "<template>", 1),
+    ("InTemplateRow", "<template><tr>", 1), ("AfterBody", "<body></body>", 1), ("InFrameset", "<frameset>", 1),
+    ("AfterFrameset", "<frameset></frameset>", 1), ("AfterAfterBody", "<body></body></html>", 1),
+    ("AfterAfterFrameset", "<frameset></frameset></html>", 1), ("ForeignSvg", "<svg><g>", 1), ("ForeignMath", "<math><mrow>", 1),
+    ("MathTextIP", "<math><mi>", 1), ("SvgHtmlIP", "<svg><desc>", 1), ("InSelect", "<select><option>", 1),
+    ("InButtonP", "<p><button>", 1), ("Ruby", "<ruby><rb>", 1), ("Heading", "<h1>", 1), ("Formatting", "<a><b><nobr>", 1),
+]
+
+
+def probe_names():
+    """every tag name mentioned in an arm head of rules.rs or in a tag set, as of the regenerated tables"""
+    names = set()
+    for f in ("GenDispatch.v", "GenTagSets.v", "GenAdjust.v"):
+        txt = open(os.path.join(vcommon.COQ, "Gen", f)).read()
+        names.update(re.findall(r'A(?:Start|End) "([^"]+)"', txt))
+        names.update(re.findall(r'\(Ns\w+, "([^"]+)"\)', txt))
+    return sorted(n for n in names if re.fullmatch(r"[A-Za-z0-9:-]+", n)) + ["x-y"]
+
+
+def probe_cases():
+    out = []
+    names = probe_names()
+    for _, prefix, scripting in MODE_PREFIX:
+        for n in names:
+            out.append(mk_case(["%s<%s>x<b>y" % (prefix, n)], scripting=scripting))
+            out.append(mk_case(["%s</%s>x<b>y" % (prefix, n)], scripting=scripting))
+        for tok in ["x", " ", "<!--c-->", "\0", "<!DOCTYPE html>", ""]:
+            out.append(mk_case([prefix + tok + "<i>z"], scripting=scripting))
+    # frameset-ok probes: which tokens clear the flag (the implicit body is replaced by <frameset> iff it is still set)
+    for n in names:
+        for s in ("<%s><frameset><frame>" % n, "<%s></%s><frameset><frame>" % (n, n), "</%s><frameset><frame>" % n,
+                  "<%s> <frameset><frame>" % n):
+            out.append(mk_case([s]))
+    for s in ("x<frameset>", " <frameset>", "\0<frameset>", "<input type=hidden><frameset>", "<input type=text><frameset>",
+              "<svg>x</svg><frameset>", "<svg> </svg><frameset>", "<math>\0</math><frameset>", "<table> </table><frameset>",
+              "<select> </select><frameset>", "<template></template><frameset>", "<!--c--><frameset>"):
+        out.append(mk_case([s]))
+    # pending-LF probes
+    for n in ("pre", "listing", "textarea", "div", "title"):
+        for t in ("\nx", "\n\nx", "&#10;x", "&#10x", "<!--c-->\nx", "\r\nx", "x\n"):
+            out.append(mk_case(["<%s>%s" % (n, t)]))
+    return out
